@@ -3,6 +3,7 @@ package h
 import (
 	"bytes"
 	"fmt"
+	"io"
 	"strings"
 	"sync"
 	"time"
@@ -28,8 +29,12 @@ type Config struct {
 	PeerPause         bool  `json:"peer_pause,omitempty"` // the scripted peer waits 40 s (virtual) before every segment
 	// ReadTO / WriteTO: Server.ReadTimeout / WriteTimeout individually (0: not set); with these the scripted
 	// connection honours the armed read deadline like a real one (a wait that outlasts it ends in a timeout)
-	ReadTO  time.Duration `json:"read_to,omitempty"`
-	WriteTO time.Duration `json:"write_to,omitempty"`
+	// Debug: Server.Debug is set (a writer that receives a copy of the traffic)
+	Debug bool `json:"debug,omitempty"`
+	// LongPauseBefore: the scripted peer is silent for 5 minutes before that segment (1-based; 0: never)
+	LongPauseBefore int           `json:"long_pause_before,omitempty"`
+	ReadTO          time.Duration `json:"read_to,omitempty"`
+	WriteTO         time.Duration `json:"write_to,omitempty"`
 }
 
 // LogBuf is a concurrency-safe smtp.Logger.
@@ -80,6 +85,9 @@ func (cfg Config) NewServer(be smtp.Backend, log *LogBuf) *smtp.Server {
 	if cfg.ReadTO != 0 || cfg.WriteTO != 0 {
 		s.ReadTimeout, s.WriteTimeout = cfg.ReadTO, cfg.WriteTO
 	}
+	if cfg.Debug {
+		s.Debug = io.Discard
+	}
 	s.ErrorLog = log
 	return s
 }
@@ -112,6 +120,9 @@ func RunS(cfg Config, be *Backend, segs [][]byte, term string) *Obs {
 	sc.RequireDeadlines = cfg.Timeouts
 	if cfg.PeerPause {
 		sc.Pause = 40 * time.Second
+	}
+	if cfg.LongPauseBefore > 0 {
+		sc.LongPauseBefore, sc.LongPause = cfg.LongPauseBefore, 5*time.Minute
 	}
 	o := &Obs{}
 	var conn *smtp.Conn
